@@ -19,15 +19,15 @@ Lemma C11_month_plus_any_l : forall m dm, 0 <= m <= 255 -> -2147483648 < dm <= 2
 Proof. intros m dm Hm Hd. split; [apply month_plus_r_ok|apply month_plus_r_m]; assumption. Qed.
 
 Lemma C11_day_plus_l : forall d dd, 0 <= d <= 255 -> -2147483648 <= dd <= 2147483647 ->
-  (0 <= d + dd <= 254 -> day_plus_m d dd = Ok (d + dd)) /\
-  (~ (0 <= d + dd <= 254) -> day_plus_m d dd = Contract) /\
-  (0 <= d - dd <= 254 -> day_minus_days_m d dd = Ok (d - dd)).
+  (0 <= d + dd <= 255 -> day_plus_m d dd = Ok (d + dd)) /\
+  (~ (0 <= d + dd <= 255) -> day_plus_m d dd = Contract) /\
+  (0 <= d - dd <= 255 -> day_minus_days_m d dd = Ok (d - dd)).
 Proof.
   intros d dd Hd Hdd. split; [intros; apply day_plus_ok; assumption|].
   split; [intros; apply day_plus_contract; assumption|intros; apply day_minus_days_ok; assumption].
 Qed.
 
-Lemma C11_day_month_ctor_l : forall v, 0 <= v <= 254 -> day_ctor_m v = Ok v /\ month_ctor_m v = Ok v.
+Lemma C11_day_month_ctor_l : forall v, 0 <= v <= 255 -> day_ctor_m v = Ok v /\ month_ctor_m v = Ok v.
 Proof. intros v H. split; [apply day_ctor_ok|apply month_ctor_ok]; exact H. Qed.
 
 Lemma C11_weekday_diff_inverts_l : forall a b, 0 <= a <= 6 -> 0 <= b <= 6 ->
